@@ -75,6 +75,12 @@ def gen(tier, rnd):
             ops = ['N'] * k + ['C'] + ['N'] * 4 + ['C', 'N', 'N']
             case(32, 0, freq, ops)
             case(32, 1, freq, ops)
+    # sender sequence numbers beyond 32 bits (they go up to 2^40 - 1): a life that crosses 2^32, a restart from what was saved there - never a number of an
+    # earlier life (sender-side histories: the requests are held back in the network, the recipient plays no part)
+    for freq in (1, 4):
+        for k in (0, 2, 5):
+            case(32, 0, freq, ['h'] * 8 + ['H 4294967290'] + ['h'] * (4 + k) + ['C'] + ['h'] * 6 + ['C', 'h', 'h'])
+            case(32, 0, freq, ['h'] * 3 + ['H 1099511627000'] + ['h'] * (3 + k) + ['C'] + ['h'] * 3)
     # random histories
     for _ in range(250 if tier == 'quick' else 20000):
         win = rnd.choice((32, 32, 1, 2, 8, 63))
